@@ -37,6 +37,7 @@ def main(tier, seed):
     def regen():
         run_translator("py2coq_read.py", "tinyflux", "gen/ReadGen.v", refused)
         run_translator("py2coq_update.py", "tinyflux", "gen/UpdateGen.v", refused)
+        run_translator("py2coq_updater.py", "tinyflux/database.py", "gen/UpdaterGen.v", refused)          # the per-point updater, block by block (C03_source_updater_is_the_model)
         run_translator("py2coq_memstore.py", "tinyflux/storages.py", "gen/MemStoreGen.v", refused)          # class MemoryStorage (C03_source_memory_storage_update_stores_the_images)
     return dbtie.db_check("C03", tier, seed, PROFILE, 650, 6000, "Prop_C03",
                           "user callables and re are an environment the theorems quantify over; the tie instantiates them with the twin table",
